@@ -41,6 +41,8 @@ func init() {
 			"\t\tif failed != nil {\n\t\t\t_ = failed.Close()\n\t\t}\n", "\t\t_ = failed\n", "C13-R1w"},
 		mutant{"failed upgrade is reported without taking the connection", "codec/websocket/stream.go",
 			"\t\t\tif err != nil {\n\t\t\t\tfailed, s.conn = s.conn, nil\n\t\t\t}\n", "", "C13-R1w"},
+		mutant{"listener deregisters before its once-guard", "listen_conn.go",
+			"\tif !atomic.CompareAndSwapUint32(&l.closed, 0, 1) {\n\t\t// Already closed: the descriptor number may belong to somebody else by now.\n\t\treturn io.EOF\n\t}\n\n\t_ = l.ioc.UnsetReadWrite(&l.slot)\n\tl.ioc.Deregister(&l.slot)\n", "\t_ = l.ioc.UnsetReadWrite(&l.slot)\n\tl.ioc.Deregister(&l.slot)\n\tif !atomic.CompareAndSwapUint32(&l.closed, 0, 1) {\n\t\t// Already closed: the descriptor number may belong to somebody else by now.\n\t\treturn io.EOF\n\t}\n\n", "C13-R2"},
 		mutant{"listener close is not guarded", "listen_conn.go",
 			"\tif !atomic.CompareAndSwapUint32(&l.closed, 0, 1) {\n\t\t// Already closed: the descriptor number may belong to somebody else by now.\n\t\treturn io.EOF\n\t}\n\n", "\t_ = io.EOF\n\t_ = atomic.LoadUint32(&l.closed)\n", "C13-R2"},
 		mutant{"file close bails out before close(2)", "file.go",
@@ -232,6 +234,30 @@ func runC13(c *Ctx) {
 				continue
 			}
 			c.ok(fn, "once-guard", f.Pos(), "guarded by %s", kind)
+			// everything Close undoes by descriptor number sits behind the same guard: the poller interests and the IO's
+			// slot table are keyed by the number, which may belong to another object when Close is called again
+			eachInstr(fn, func(in ssa.Instruction) {
+				call, ok := in.(ssa.CallInstruction)
+				if !ok || call.Common().StaticCallee() == nil {
+					return
+				}
+				callee := call.Common().StaticCallee()
+				if rp, rt := recvTypeName(callee); rp != modPath || rt != "IO" {
+					return
+				}
+				switch callee.Name() {
+				case "Deregister", "UnsetRead", "UnsetWrite", "UnsetReadWrite":
+				default:
+					return
+				}
+				behind := false
+				for _, l := range guardsOf(in.Block()) {
+					if l.If == g.If && l.Pos == g.Pos {
+						behind = true
+					}
+				}
+				c.check(behind, fn, "guarded "+callee.Name(), in.Pos(), "runs behind the once-guard", callee.Name()+" runs before the once-guard: a second "+cl.method+" removes the poller interest / slot-table entry of whichever object owns that descriptor number by then, and its operation in flight is dropped or its owner collected")
+			})
 			// every path past the guard reaches the close
 			edge := g.If.Block().Succs[1]
 			if g.Pos {
